@@ -55,6 +55,8 @@ func c02Check(c *Case) []Violation {
 	switch c.Kind {
 	case "map-order":
 		return c02MapOrder(c)
+	case "map-order-case-keys":
+		return c02CaseKeys(c)
 	case "seeds":
 		return c02Seeds(c)
 	case "pair":
@@ -65,7 +67,28 @@ func c02Check(c *Case) []Violation {
 		return vs
 	case "free":
 		return c02Free(c)
+	case "service-pair":
+		return c02ServicePair(c)
 	}
+	return nil
+}
+
+// c02ServicePair: the same request POSTed to the service's own handler twice in a row and after another request answers
+// with the same status and bytes each time (the handler's own decoding and bookkeeping are part of "earlier requests").
+func c02ServicePair(c *Case) []Violation {
+	q := J(asM(c.Params["q"]))
+	first := post(q)
+	again := post(q)
+	if first.Code != again.Code || (first.Code == 200 && !bytes.Equal(first.Body, again.Body)) {
+		return []Violation{viol(c, "C02/service-repetition", "POST /api/decide answers %d and then %d%s for the same body", first.Code, again.Code, diffNote(first.Body, again.Body))}
+	}
+	post(J(asM(c.Params["p"])))
+	after := post(q)
+	stat("transitions")
+	if first.Code != after.Code || (first.Code == 200 && !bytes.Equal(first.Body, after.Body)) {
+		return []Violation{viol(c, "C02/service-history-dependence", "POST /api/decide answers %d before and %d%s after another request", first.Code, after.Code, diffNote(first.Body, after.Body))}
+	}
+	stat("traces_validated")
 	return nil
 }
 
@@ -107,6 +130,30 @@ func c02MapOrder(c *Case) []Violation {
 			return vs
 		}
 		stat("traces_validated")
+	}
+	return vs
+}
+
+// caseKeyCorpus: parameter objects that carry the same option twice, spelt with different letter case. Such a request is
+// accepted; which of the two spellings is used must not depend on map iteration order. Kept out of the shared corpora and
+// under a signature of its own (see known_findings.txt), so that every other map-order dependence is still reported.
+func caseKeyCorpus() []CorpusReq {
+	ws := rootRequest("weightedSum", true, false)
+	var out []CorpusReq
+	add := func(name string, req M) {
+		out = append(out, CorpusReq{Name: "case-keys/" + name, Req: req, Valid: true})
+	}
+	add("fatigue-randomSeed", withBiases(ws, []M{{"name": "fatigue", "props": M{"function": "const", "params": M{"value": 0.3}, "randomSeed": 1, "randomseed": 2}}}))
+	add("omission-ordering", withBiases(ws, []M{{"name": "criteriaOmission", "props": M{"ratio": 0.34, "ordering": "weakest", "ORDERING": "strongest"}}}))
+	add("majority-drawResolution", withMP(rootRequest("majorityHeuristic", true, false), M{"drawResolution": "current", "drawresolution": "newer"}))
+	return out
+}
+
+func c02CaseKeys(c *Case) []Violation {
+	vs := c02MapOrder(c)
+	for i := range vs {
+		vs[i].Sig = "C02/map-order/option-keys-differing-only-in-case"
+		vs[i].Case = c
 	}
 	return vs
 }
@@ -296,6 +343,15 @@ func c02Run(s *Shard) {
 			sampled = true
 		}
 	}
+	for _, r := range caseKeyCorpus() {
+		if !s.Take() {
+			continue
+		}
+		c := &Case{Prop: "C02", Kind: "map-order-case-keys", Req: r.Req, Params: M{"menu": menu, "name": r.Name}}
+		s.Evals++
+		s.Begin(c)
+		s.Report(c02CaseKeys(c))
+	}
 	// true randomness in three of the processes
 	if s.Idx < 3 {
 		for _, r := range corpus {
@@ -321,6 +377,19 @@ func c02Run(s *Shard) {
 			c := &Case{Prop: "C02", Kind: "pair", Params: M{"p": p.Req, "q": q.Req, "q_baseline": bl[q.Name], "p_name": p.Name, "q_name": q.Name}}
 			s.Evals++
 			s.Count("transitions", 2)
+			s.Begin(c)
+			s.Report(c02Check(c))
+		}
+	}
+	// the same through the service's handler: every ordered pair of the small service corpus
+	sc := c01ServiceCorpus()
+	for _, p := range sc {
+		for _, q := range sc {
+			if !s.Take() {
+				continue
+			}
+			c := &Case{Prop: "C02", Kind: "service-pair", Params: M{"p": p, "q": q}}
+			s.Evals++
 			s.Begin(c)
 			s.Report(c02Check(c))
 		}
